@@ -46,10 +46,14 @@ pub fn run() {
         unsafe { libc::waitpid(pid, &mut st, 0) };
         let killed = libc::WIFSIGNALED(st);
         let mut sent_s = serde_json::Value::Null;
+        // the survivor's message carries an endpoint of its own: it must arrive with exactly that attachment, whatever an abandoned
+        // message before it had carried
+        let (satt_tx, satt_rx) = platform::channel().unwrap();
         if survivor {
-            sent_s = json!(tx.send(&tagged(9, 0, 48), vec![], vec![]).is_ok());
+            sent_s = json!(tx.send(&tagged(9, 0, 48), vec![OsIpcChannel::Sender(satt_tx)], vec![]).is_ok());
         } else {
             drop(tx);
+            drop(satt_tx);
         }
         // observe
         let obs = observe.clone();
@@ -59,6 +63,18 @@ pub fn run() {
                 let (s, q, l, ok) = untag(d);
                 log.push(json!({"msg":[s,q,l,ok]}));
                 s == 9
+            };
+            // attachments of the survivor's message: how many arrived, and is the first one the endpoint that was embedded?
+            let probe = |log: &mut Vec<serde_json::Value>, d: &[u8], ch: &mut Vec<ipc_channel::platform::OsOpaqueIpcChannel>| {
+                if untag(d).0 == 9 {
+                    let n = ch.len();
+                    let mut first_ok = false;
+                    if n >= 1 {
+                        let s0 = ch[0].to_sender();
+                        first_ok = s0.send(&[0x5A, 0x5A, 0x5A], vec![], vec![]).is_ok();
+                    }
+                    log.push(json!({"survivor_atts": [n, first_ok]}));
+                }
             };
             match obs.as_str() {
                 "select" => {
@@ -71,6 +87,7 @@ pub fn run() {
                                 for e in evs {
                                     match e {
                                         OsIpcSelectionResult::DataReceived(_, d, mut ch, _) => {
+                                            probe(&mut log, &d, &mut ch);
                                             for c in ch.iter_mut() {
                                                 drop(c.to_sender());
                                             }
@@ -106,6 +123,7 @@ pub fn run() {
                         };
                         match r {
                             Ok((d, mut ch, _)) => {
+                                probe(&mut log, &d, &mut ch);
                                 for c in ch.iter_mut() {
                                     drop(c.to_sender());
                                 }
@@ -128,6 +146,7 @@ pub fn run() {
                 },
             }
         });
+        let survivor_probe = matches!(satt_rx.try_recv(), Ok((ref d, _, _)) if d[..] == [0x5A, 0x5A, 0x5A]);
         let (log, after, hang) = match res {
             Some((l, a)) => (l, a, false),
             None => (vec![], None, true),
@@ -144,7 +163,7 @@ pub fn run() {
         println!(
             "{}",
             json!({"kind":"crash","id":id,"len":len,"k":k,"survivor":survivor,"natt":natt,"observe":observe,"killed":killed,
-                   "survivor_sent":sent_s,"log":log,"after":after,"hang":hang,"att_state":att_state})
+                   "survivor_sent":sent_s,"log":log,"after":after,"hang":hang,"att_state":att_state,"survivor_probe":survivor_probe})
         );
     }
 }
